@@ -1,6 +1,7 @@
 (* C01 — property theorems only (model: Reader/Model.v, proofs: Reader/Proofs.v, C03/Proofs.v, C01/Proofs.v) *)
 From Coq Require Import List String NArith ZArith Bool Sorting.Sorted Permutation.
 From Verif Require Import Base.Util Reader.Model Reader.Script Reader.Proofs C03.Proofs C01.Check C01.Proofs Reader.Example.
+From Verif Require C01.Complete.
 Import ListNotations.
 Local Open Scope string_scope.
 
@@ -41,6 +42,35 @@ Theorem C01_one_message : forall retries a m,
   match one_msg retries a m with COk a' => grows_by m (a_out a) (a_out a') | CErr _ => True end.
 Proof. exact one_msg_out. Qed.
 Print Assumptions C01_one_message.
+
+(* completeness at the level of one message - sufficient conditions for delivery, for every accumulator state: an insert or delete
+   of a live collection (not marked dropped, record held by the handler, not listed as dropped) into a partition the handler knows
+   (and, for a delete, one that is neither dropped nor being dropped) is appended to the pack being built, re-addressed by the record;
+   a collection's drop message is always handed on and takes the record out of the handler.  (no_mix: the pack being built is not a
+   mix of forwarded and not-forwarded messages.)  Completeness over whole histories - that these conditions hold for every message
+   the property speaks of - is decided by the checker stream_ok on traces. *)
+Theorem C01_insert_delivered : forall retries a m r id,
+  m_kind m = KInsert -> Complete.first_ok a m -> zmem (m_coll m) (dcolls (a_st a)) = false ->
+  zlookup (h_recs (a_h a)) (m_coll m) = Some r -> t_dropped r = false ->
+  alookup (heap_get (a_st a) (t_parts r)) (m_pname m) = Some id -> Complete.no_mix a r ->
+  exists a', one_msg retries a m = COk a' /\ a_out a' = (a_out a ++ [mk_emsg m r id])%list.
+Proof. exact Complete.insert_delivered. Qed.
+Print Assumptions C01_insert_delivered.
+Theorem C01_delete_delivered : forall retries a m r id,
+  m_kind m = KDelete -> Complete.first_ok a m -> zmem (m_coll m) (dcolls (a_st a)) = false ->
+  zlookup (h_recs (a_h a)) (m_coll m) = Some r -> t_dropped r = false ->
+  zmem (m_part m) (dparts (a_st a)) = false -> zmem (m_part m) (t_dropping r) = false -> m_pname m <> ""%string ->
+  alookup (heap_get (a_st a) (t_parts r)) (m_pname m) = Some id -> Complete.no_mix a r ->
+  exists a', one_msg retries a m = COk a' /\ a_out a' = (a_out a ++ [mk_emsg m r id])%list.
+Proof. exact Complete.delete_delivered. Qed.
+Print Assumptions C01_delete_delivered.
+Theorem C01_drop_collection_delivered : forall retries a m r,
+  m_kind m = KDropColl -> Complete.first_ok a m -> zmem (m_coll m) (dcolls (a_st a)) = false ->
+  zlookup (h_recs (a_h a)) (m_coll m) = Some r -> Complete.no_mix a r ->
+  exists a', one_msg retries a m = COk a' /\ a_out a' = (a_out a ++ [mk_emsg m r (m_part m)])%list
+             /\ zlookup (h_recs (a_h a')) (m_coll m) = None /\ a_need a' = true.
+Proof. exact Complete.drop_collection_delivered. Qed.
+Print Assumptions C01_drop_collection_delivered.
 
 Example C01_nonvacuous :
   let s := run 3 ex_labels in
